@@ -21,3 +21,11 @@ Definition any_cfg : config :=
 (* with a deadline the attempt ends AT the deadline, whatever it is: there is no finite time at which it ends by itself *)
 Lemma F7_refuted : forall d, match connect any_cfg d silent_world with CErr 3 w' => w_now w' = d | _ => False end.
 Proof. intros d. vm_compute. reflexivity. Qed.
+
+(* ---------- F10 (C08): the summary's terminal id was `to_string()` of the reported number ---------- *)
+Definition legacy_tid_text (n : N) : list N := dec_digits 40 n.
+(* the terminal id 00123456 came back as "123456", the default id 00000000 as "0" *)
+Lemma F10_refuted : legacy_tid_text 123456 = [49; 50; 51; 52; 53; 54] /\ legacy_tid_text 0 = [48].
+Proof. split; vm_compute; reflexivity. Qed.
+Lemma F10_now : pad_dec 8 123456 = [48; 48; 49; 50; 51; 52; 53; 54] /\ pad_dec 8 0 = repeat 48 8.
+Proof. split; vm_compute; reflexivity. Qed.
